@@ -124,6 +124,37 @@ CHECKS.update({
         design="DESIGN.md §1 C12"),
 })
 
+CHECKS.update({
+    "C11": dict(
+        category="other",
+        technique="solver-enumerated argument lists through the real params_from_cmd against a reference function of the documentation",
+        text=("The real cmd_parser.params_from_cmd (with full_vm_params_and_strs/full_tests_params_and_str, parser calls memoised) is run on every argument list of length <= 2 (3) over a menu of "
+              "19 (26) argument forms (only/no, only_vmX/no_vmX incl. unknown objects, vms, nets, only_nets/no_nets, K=V, malformed); tests_str, vm_strs, param_dict and the vm selection are compared "
+              "with a reference function written from the README; documented errors must raise ValueError. Also: Reparsable.parse_next_batch orders file < string < dict and a K=V override reaches "
+              "every parsed test of three selections. Exhaustive over the menu (381 / 14k lists)."),
+        note="The claim covers the repository side only: that the composed restriction strings select the same tests as an equivalent restriction is the Cartesian parser's semantics (outside). Argument values are concrete menu entries.",
+        design="DESIGN.md §1 C11"),
+    "C13": dict(
+        category="other",
+        technique="symbolic execution of the real pool backends over uninterpreted gateway/host atoms, symbolic presence bits, all scope subsets",
+        text=("The real SourcedStateBackend.show/get/set/unset (get_sources, get_source_scope) and RootSourcedStateBackend root operations run with transport and local _show/_get/_set/_unset as logging stubs. "
+              "Gateways/hosts of the own worker and each source are uninterpreted atoms (the real comparisons and the proximity sort fork on their equality), presence locally/per source and cache validity "
+              "are solver variables, pool_scope ranges over all 16 subsets, source lists of length <= 2 (3) over three path classes. Checked: only sources of an enabled scope are contacted, get uses the closest "
+              "permitted source and downloads exactly when needed, set/unset reach every permitted mirror, show reports only what is local or in a permitted source, updating without the local state is refused. Exhaustive."),
+        note="transport and local backend methods are stubs (the substitution points the classes provide); closeness = (same gateway, same host, swarm_pool path).",
+        design="DESIGN.md §1 C13"),
+    "C14": dict(
+        category="other",
+        technique="symbolic execution of the real transfer operations and image_lock over a model file system with symbolic contents, lock contention and fault position",
+        text=("The real TransferOps.*_local/*_link and image_lock run over a model file system (pool.os/shutil/open), a model lockf answering EAGAIN for k attempts (k symbolic), crypto.hash_file "
+              "returning the symbolic content it hashes (contents = (first MiB, rest)), and OSError injected at the f-th file system call. Checked: every copy/unlink/symlink happens while the lock on "
+              "<pool_path>.lock is held, the lock file is never removed, the lock is released on every exit iff taken, waiting out the timeout raises RuntimeError without touching anything (validity query "
+              "on k), real data is never lost (incl. under faults), the destination equals the source after a successful transfer (validity query over content terms), no copy when both match, link mode "
+              "never replaces data nor uploads a link. Exhaustive (1.5k paths)."),
+        note="Assumed, not checked: fcntl exclusion between processes and release on process death (kernel). Remote transfers have no locks in the code and are excluded. Known finding: first-MiB-only hashing.",
+        design="DESIGN.md §1 C14"),
+})
+
 NOT_APPLICABLE = {
     "C07": "Both sides of 'parsed edges = edges declared in the configuration' are functions of concrete configuration text through virttest's Cartesian parser (2200 lines of text processing outside /repo) which cannot be executed on symbolic strings within reach; deciding it would be differential testing over enumerated selections, a different technique. See DESIGN.md §2.",
 }
